@@ -27,6 +27,15 @@ RULE_MSET = ("MultiSet used directly: families of 0-5 integer sets of 0-6 elemen
              "M = MS.to_vec; non-trivial = >=2 sets and >=2 combinations")
 
 
+RULE_BIG = ("large products through the real apply_input_plugins: field lengths whose product is just below / at / above "
+            "1000, 1024, 4096, 10000, 10001, 16384, 65536 (binary fields, two long fields, one-option fields between, "
+            "object options on the last field) plus random shapes near these; decided by COUNT and DIGEST only: "
+            "I = number of produced queries + sum and xor of a 64-bit hash of each query's canonical text; "
+            "S = the count computed in Coq as the product of the field lengths (theorem grid_count instance) + the same "
+            "digest of the expected queries, which the harness builds by enumerating the product itself "
+            "(harness-side specification, independent of the plugin; not evaluated in Coq)")
+
+
 def classify(case, i, m, s):
     return None
 
@@ -52,7 +61,8 @@ def run(chk):
     replay_stream = None
     if chk.replay:
         try:
-            replay_stream = "mset" if "sets" in json.load(open(chk.replay)).get("case", {}) else "grid"
+            case = json.load(open(chk.replay)).get("case", {})
+            replay_stream = "mset" if "sets" in case else ("gridbig" if "lens" in case else "grid")
         except Exception:  # noqa
             replay_stream = "grid"
     n = 800 if chk.tier == "quick" else 12000
@@ -64,6 +74,13 @@ def run(chk):
             chk.coverage["streams"]["corpus:" + stream] = {"cases": rc.stats.get("cases", 0), "rule": "corpus/C17/witnesses.json replayed"}
             vf.compare(chk, rc, spec_tag=("S" if stream == "gridset" else "-"), classify=classify, binpath=binp,
                        stream_label="corpus:" + stream)
+    if replay_stream in (None, "gridbig"):
+        rb = vf.run_stream(binp, "gridbig", 30 if chk.tier == "quick" else 120, chk.seed, os.path.join(chk.outdir, "gridbig"),
+                           replay=chk.replay)
+        chk.add_stream(rb, RULE_BIG)
+        vf.compare(chk, rb, model_tag="S", classify=classify, binpath=binp)
+    if replay_stream == "gridbig":
+        return finish(chk)
     if replay_stream != "grid":
         r0 = vf.run_stream(binp, "mset", n // 4, chk.seed, os.path.join(chk.outdir, "mset"), replay=chk.replay)
         chk.add_stream(r0, RULE_MSET)
